@@ -135,6 +135,26 @@ def verdicts(body):
     return out
 
 
+def check_read_before_release(ctx, rule):
+    """consumers of the two rings: the slot is copied out (ptr::read) before it is released for reuse, once each (shared with C02 as R02.8)"""
+    fx = ctx.fx
+    # consumers: read-before-release
+    for adt in (R.AM, R.FSM):
+        k = f"{adt} as {R.T_SUB}::consume_movable"
+        body = Body(fx.fn(k)); dg = D.Dag(body)
+        reads = [(b, c) for (b, c) in body.calls if c.get("f") in ("std::ptr::read", "core::ptr::read")]
+        rels = [(b, c) for (b, c) in body.calls if c.get("fname") in ("release_leaked_internal",)]
+        if not rels:
+            # the release helper was merged into this function: the release is the head advance itself (store to `head` / commit CAS on `head`)
+            import guards as _g
+            rels = [(a["b"], None) for a in _g.accesses(body, adt, {"head"}) if a["kind"] == "w"][:1] + \
+                   [(b, c) for (b, c) in body.calls if (R.atomic_target(body, c) or (0, 0, ""))[1:2] == ("head",) and "compare_exchange" in (R.atomic_target(body, c) or (0, 0, ""))[2]][:1]
+        ok = len(reads) == 1 and len(rels) == 1 and body.dominates(reads[0][0], rels[0][0])
+        ctx.ob(rule, f"{k}|read-before-release", ok, f"{body.f['file']}:{body.f['line']}", "the slot is copied out (ptr::read) before it is released for reuse, once each")
+        r0 = strip_casts(dg.local(0))
+        ctx.ob(rule, f"{k}|returns-what-it-read", _mentions(r0, lambda x: x[0] == "call" and x[1].endswith("ptr::read")) or r0[0] == "phi", f"{body.f['file']}:{body.f['line']}", f"returns `{show(r0)[:100]}`")
+
+
 def check(ctx):
     fx = ctx.fx
     # ------------------------------------------------------------------ R01.1 containers: write-before-publish
@@ -146,8 +166,9 @@ def check(ctx):
     for k in producers:
         body = Body(fx.fn(k)); dg = D.Dag(body)
         site = f"{body.f['file']}:{body.f['line']}"
-        res = [(b, c) for (b, c) in body.calls if c.get("fname") in ("leak_slot_internal", "leak_slot")]
-        pubs = [(b, c) for (b, c) in body.calls if c.get("fname") in ("publish_leaked_internal", "publish_leaked_id", "try_publish_leaked_internal")]
+        zc = k.startswith((R.AZC, R.FZC))      # zero-copy containers: the reservation is the pool allocation, the publication the id's enqueue into the ring (their leak_slot / publish_leaked_id spelled out)
+        res = [(b, c) for (b, c) in body.calls if c.get("fname") in ("leak_slot_internal", "leak_slot") + (("alloc_ref",) if zc else ())]
+        pubs = [(b, c) for (b, c) in body.calls if c.get("fname") in ("publish_leaked_internal", "publish_leaked_id", "try_publish_leaked_internal") + (("publish_movable",) if zc else ())]
         writes = [(b, c) for (b, c) in body.calls if (c.get("f") in WRITE_FNS) and not (c.get("f") == "std::ops::FnOnce::call_once" and "report" in show(dg.expr(c["args"][0])))]
         if len(res) != 1 or not pubs or not writes:
             ctx.ob("R01.1", f"{k}|reserve-write-publish-present", False, site, f"{len(res)} reservation, {len(writes)} payload write, {len(pubs)} publication calls; expected 1 / >=1 / >=1"); continue
@@ -161,21 +182,7 @@ def check(ctx):
             ctx.ob("R01.1", f"{k}|write-before-publish", ok, body.loc(wb), "the payload write lies on the Some edge of the reservation and dominates the publication (a consumer can never read a slot that is still being written)")
         for (pb, pc) in pubs:
             ctx.ob("R01.1", f"{k}|publish-only-reserved", some_t is not None and body.dominates(some_t, pb) and not util.in_loop(body, pb), body.loc(pb), "publication happens once, on the reserved path only")
-    # consumers: read-before-release
-    for adt in (R.AM, R.FSM):
-        k = f"{adt} as {R.T_SUB}::consume_movable"
-        body = Body(fx.fn(k)); dg = D.Dag(body)
-        reads = [(b, c) for (b, c) in body.calls if c.get("f") in ("std::ptr::read", "core::ptr::read")]
-        rels = [(b, c) for (b, c) in body.calls if c.get("fname") in ("release_leaked_internal",)]
-        if not rels:
-            # the release helper was merged into this function: the release is the head advance itself (store to `head` / commit CAS on `head`)
-            import guards as _g
-            rels = [(a["b"], None) for a in _g.accesses(body, adt, {"head"}) if a["kind"] == "w"][:1] + \
-                   [(b, c) for (b, c) in body.calls if (R.atomic_target(body, c) or (0, 0, ""))[1:2] == ("head",) and "compare_exchange" in (R.atomic_target(body, c) or (0, 0, ""))[2]][:1]
-        ok = len(reads) == 1 and len(rels) == 1 and body.dominates(reads[0][0], rels[0][0])
-        ctx.ob("R01.1", f"{k}|read-before-release", ok, f"{body.f['file']}:{body.f['line']}", "the slot is copied out (ptr::read) before it is released for reuse, once each")
-        r0 = strip_casts(dg.local(0))
-        ctx.ob("R01.1", f"{k}|returns-what-it-read", _mentions(r0, lambda x: x[0] == "call" and x[1].endswith("ptr::read")) or r0[0] == "phi", f"{body.f['file']}:{body.f['line']}", f"returns `{show(r0)[:100]}`")
+    check_read_before_release(ctx, "R01.1")
     check_zero_copy_getters(ctx, "R01.1")
     # who moves payloads out of ring slots
     for f in fx.fns:
@@ -278,6 +285,20 @@ def check(ctx):
     # ------------------------------------------------------------------ R01.7 poll / waker protocol (shared with C04): an accepted event is only 'yielded' if the parked stream is told
     C04 = importlib.import_module("props.C04")
     C04.check_poll_protocol(util.PrefixedCtx(ctx, "R01.7"))
+    # ------------------------------------------------------------------ R01.10 'carrying exactly the payload that was sent': what is published is the caller's slot, and a
+    # slot is not handed to the next producer while the previous payload's destructor still runs over it (shared with C08 R08.3 and C13 R13.1)
+    sub = util.fresh_ctx(ctx, "C08")
+    importlib.import_module("props.C08").check(sub)
+    for o in sub.obs:
+        if o["rule"] == "R08.3" and "candidate-id-is-rebuilt" in o["key"]:
+            ctx.ob("R01.10", o["key"], o["ok"], o["site"], o["detail"], o["nontrivial"])
+    C13 = importlib.import_module("props.C13")
+    class OnlyDealloc(util.PrefixedCtx):
+        def ob(self, rule, key, ok, site="", detail="", nontrivial=True, undecided=False):
+            if rule == "R13.1" and "dealloc_id" in key: return super().ob(rule, key, ok, site, detail, nontrivial, undecided)
+            return ok
+    C13.check(OnlyDealloc(ctx, "R01.10"))
+    ctx.floor("R01.10", 4)
     ctx.floor("R01.1", 20); ctx.floor("R01.2", 25); ctx.floor("R01.3", 12); ctx.floor("R01.4", 10); ctx.floor("R01.5", 30)
 
 
